@@ -15,6 +15,125 @@
 
 use serde::{Deserialize, Deserializer, Serializer};
 
+/// Hex decoding for untrusted strings: grin_util::from_hex slices the string by
+/// byte offsets and panics on multi-byte characters, so everything that is not an
+/// ASCII hex digit is refused up front
+pub fn from_hex(hex: &str) -> Result<Vec<u8>, String> {
+	if !hex.chars().all(|c| c.is_ascii_hexdigit()) {
+		return Err(format!("invalid hex string: {}", hex));
+	}
+	crate::grin_util::from_hex(hex).map_err(|e| e.to_string())
+}
+
+/// Guarded versions of the grin_core `secp_ser` (de)serializers used on fields
+/// that arrive from outside (slates, payment proofs): the originals hex-decode
+/// without validation and panic on non-hex or non-ASCII input
+pub mod safe_secp_ser {
+	use crate::grin_core::libtx::secp_ser;
+	use crate::grin_keychain::BlindingFactor;
+	use crate::grin_util::secp::key::PublicKey;
+	use crate::grin_util::secp::pedersen::Commitment;
+	use crate::grin_util::secp::Signature;
+	use serde::de::{Error, IntoDeserializer};
+	use serde::{Deserialize, Deserializer, Serializer};
+
+	fn checked<E: Error>(s: &str) -> Result<(), E> {
+		if s.chars().all(|c| c.is_ascii_hexdigit()) {
+			Ok(())
+		} else {
+			Err(E::custom("invalid hex string"))
+		}
+	}
+
+	/// see secp_ser::commitment_from_hex
+	pub fn commitment_from_hex<'de, D>(deserializer: D) -> Result<Commitment, D::Error>
+	where
+		D: Deserializer<'de>,
+	{
+		let s = String::deserialize(deserializer)?;
+		checked::<D::Error>(&s)?;
+		secp_ser::commitment_from_hex(s.into_deserializer())
+	}
+
+	/// see secp_ser::blind_from_hex
+	pub fn blind_from_hex<'de, D>(deserializer: D) -> Result<BlindingFactor, D::Error>
+	where
+		D: Deserializer<'de>,
+	{
+		// (BlindingFactor::from_hex unwraps the hex decoding)
+		let s = String::deserialize(deserializer)?;
+		let bytes = super::from_hex(&s).map_err(D::Error::custom)?;
+		Ok(BlindingFactor::from_slice(&bytes))
+	}
+
+	/// see secp_ser::pubkey_serde
+	pub mod pubkey_serde {
+		use super::*;
+		///
+		pub fn serialize<S>(key: &PublicKey, serializer: S) -> Result<S::Ok, S::Error>
+		where
+			S: Serializer,
+		{
+			secp_ser::pubkey_serde::serialize(key, serializer)
+		}
+		///
+		pub fn deserialize<'de, D>(deserializer: D) -> Result<PublicKey, D::Error>
+		where
+			D: Deserializer<'de>,
+		{
+			let s = String::deserialize(deserializer)?;
+			checked::<D::Error>(&s)?;
+			secp_ser::pubkey_serde::deserialize(s.into_deserializer())
+		}
+	}
+
+	/// see secp_ser::sig_serde
+	pub mod sig_serde {
+		use super::*;
+		///
+		pub fn serialize<S>(sig: &Signature, serializer: S) -> Result<S::Ok, S::Error>
+		where
+			S: Serializer,
+		{
+			secp_ser::sig_serde::serialize(sig, serializer)
+		}
+		///
+		pub fn deserialize<'de, D>(deserializer: D) -> Result<Signature, D::Error>
+		where
+			D: Deserializer<'de>,
+		{
+			let s = String::deserialize(deserializer)?;
+			checked::<D::Error>(&s)?;
+			secp_ser::sig_serde::deserialize(s.into_deserializer())
+		}
+	}
+
+	/// see secp_ser::option_sig_serde
+	pub mod option_sig_serde {
+		use super::*;
+		///
+		pub fn serialize<S>(sig: &Option<Signature>, serializer: S) -> Result<S::Ok, S::Error>
+		where
+			S: Serializer,
+		{
+			secp_ser::option_sig_serde::serialize(sig, serializer)
+		}
+		///
+		pub fn deserialize<'de, D>(deserializer: D) -> Result<Option<Signature>, D::Error>
+		where
+			D: Deserializer<'de>,
+		{
+			match Option::<String>::deserialize(deserializer)? {
+				Some(s) => {
+					checked::<D::Error>(&s)?;
+					secp_ser::sig_serde::deserialize(s.into_deserializer()).map(Some)
+				}
+				None => Ok(None),
+			}
+		}
+	}
+}
+
 /// Seralizes a byte string into base64
 pub fn as_base64<T, S>(bytes: T, serializer: S) -> Result<S::Ok, S::Error>
 where
@@ -36,8 +155,9 @@ where
 
 /// Serializes an Option<secp::Signature> to and from hex
 pub mod option_rangeproof_hex {
+	use super::from_hex;
 	use crate::grin_util::secp::pedersen::RangeProof;
-	use crate::grin_util::{from_hex, ToHex};
+	use crate::grin_util::ToHex;
 	use serde::de::{Error, IntoDeserializer};
 	use serde::{Deserialize, Deserializer, Serializer};
 
@@ -135,7 +255,8 @@ pub mod ov3_serde {
 
 /// Serializes an ed25519 PublicKey to and from hex
 pub mod dalek_seckey_serde {
-	use crate::grin_util::{from_hex, ToHex};
+	use super::from_hex;
+	use crate::grin_util::ToHex;
 	use ed25519_dalek::SecretKey as DalekSecretKey;
 	use serde::{Deserialize, Deserializer, Serializer};
 
@@ -163,7 +284,8 @@ pub mod dalek_seckey_serde {
 
 /// Serializes an ed25519 PublicKey to and from hex
 pub mod dalek_pubkey_serde {
-	use crate::grin_util::{from_hex, ToHex};
+	use super::from_hex;
+	use crate::grin_util::ToHex;
 	use ed25519_dalek::PublicKey as DalekPublicKey;
 	use serde::{Deserialize, Deserializer, Serializer};
 
@@ -191,7 +313,8 @@ pub mod dalek_pubkey_serde {
 
 /// Serializes an x25519 PublicKey to and from hex
 pub mod dalek_xpubkey_serde {
-	use crate::grin_util::{from_hex, ToHex};
+	use super::from_hex;
+	use crate::grin_util::ToHex;
 	use serde::{Deserialize, Deserializer, Serializer};
 	use x25519_dalek::PublicKey as xDalekPublicKey;
 
@@ -302,7 +425,8 @@ pub mod option_dalek_pubkey_serde {
 	use serde::de::Error;
 	use serde::{Deserialize, Deserializer, Serializer};
 
-	use crate::grin_util::{from_hex, ToHex};
+	use super::from_hex;
+	use crate::grin_util::ToHex;
 
 	///
 	pub fn serialize<S>(key: &Option<DalekPublicKey>, serializer: S) -> Result<S::Ok, S::Error>
@@ -344,7 +468,8 @@ pub mod option_xdalek_pubkey_serde {
 	use serde::{Deserialize, Deserializer, Serializer};
 	use x25519_dalek::PublicKey as xDalekPublicKey;
 
-	use crate::grin_util::{from_hex, ToHex};
+	use super::from_hex;
+	use crate::grin_util::ToHex;
 
 	///
 	pub fn serialize<S>(key: &Option<xDalekPublicKey>, serializer: S) -> Result<S::Ok, S::Error>
@@ -385,7 +510,8 @@ pub mod dalek_sig_serde {
 	use serde::{Deserialize, Deserializer, Serializer};
 	use std::convert::TryFrom;
 
-	use crate::grin_util::{from_hex, ToHex};
+	use super::from_hex;
+	use crate::grin_util::ToHex;
 
 	///
 	pub fn serialize<S>(sig: &DalekSignature, serializer: S) -> Result<S::Ok, S::Error>
@@ -408,7 +534,7 @@ pub mod dalek_sig_serde {
 				}
 				let mut b = [0u8; 64];
 				b.copy_from_slice(&bytes[0..64]);
-				DalekSignature::try_from(b).map_err(|err| Error::custom(err.to_string()))
+				DalekSignature::try_from(&b[..]).map_err(|err| Error::custom(err.to_string()))
 			})
 	}
 }
@@ -420,7 +546,8 @@ pub mod option_dalek_sig_serde {
 	use serde::{Deserialize, Deserializer, Serializer};
 	use std::convert::TryFrom;
 
-	use crate::grin_util::{from_hex, ToHex};
+	use super::from_hex;
+	use crate::grin_util::ToHex;
 
 	///
 	pub fn serialize<S>(sig: &Option<DalekSignature>, serializer: S) -> Result<S::Ok, S::Error>
@@ -447,7 +574,7 @@ pub mod option_dalek_sig_serde {
 					}
 					let mut b = [0u8; 64];
 					b.copy_from_slice(&bytes[0..64]);
-					DalekSignature::try_from(b)
+					DalekSignature::try_from(&b[..])
 						.map(Some)
 						.map_err(|err| Error::custom(err.to_string()))
 				}),
@@ -489,7 +616,7 @@ pub mod option_dalek_sig_base64 {
 					}
 					let mut b = [0u8; 64];
 					b.copy_from_slice(&bytes[0..64]);
-					DalekSignature::try_from(b)
+					DalekSignature::try_from(&b[..])
 						.map(Some)
 						.map_err(|err| Error::custom(err.to_string()))
 				}),
